@@ -3,6 +3,12 @@ from contracts import svc as S
 
 PROPERTY = "C21"
 LEVEL = "proof"
+# work in progress: the stream-inductive contracts in contracts/svc.py still leave obligations of this property failing or
+# undecided that have not been triaged (replayed on the real code), and a quick run takes 1-8 minutes; the property is
+# therefore NOT claimed in MANIFEST.json (tools/gen_manifest.py lists it under not_applicable).  `./check C21` runs it.
+CLAIMED = False
+NA_REASON = ("contracts for this property (contracts/svc.py) are work in progress: some obligations still fail or are undecided and "
+             "have not been triaged by replay on the real code, so the check is not registered; not claimed (DESIGN.md section 10)")
 ASSUMPTIONS = [
     "handler values range over: int, dataset with Status (and optional status elements), dataset without Status, other types",
     "dsutils.encode returns the encoding of the dataset in the given transfer syntax or None (pydicom, external)",
